@@ -33,7 +33,7 @@ def add_proxy_plugin(reg, hooks='identity'):
     hooks='adversarial': any result / exception (C05, C09)."""
     handler.add_handler(reg)
     add_parser_class(reg)
-    flags = dict(handler.FLAGS)
+    flags = dict(reg.classes['Flags']['fields'])
     flags.update({'disable_headers': ('list', 'bytes'), 'enable_conn_pool': 'bool', 'enable_events': 'bool',
                   'ca_file': ('opt', 'str'), 'insecure_tls_interception': 'bool'})
     reg.klass('Flags', py=None, fields=flags)
